@@ -4,6 +4,7 @@ import Driver.Lz4
 import Driver.Vm
 import Driver.Feat
 import Driver.Cmap
+import Driver.Zones
 /-! `grdriver <mode>`: one input line → one output line (DESIGN.md §2 "line protocol") -/
 open Driver
 
@@ -29,5 +30,6 @@ def main (args : List String) : IO UInt32 := do
   | ["vm"] => loop stdin stdout Vm.step; return 0
   | ["feat"] => loop stdin stdout Feat.step; return 0
   | ["cmap"] => loop stdin stdout Cmap.step; return 0
+  | ["zones"] => loop stdin stdout Zones.step; return 0
   | ["lz4io"] => loopIO stdin stdout Lz4.stepIO; return 0
   | _ => IO.eprintln "usage: grdriver <mode>"; return 2
